@@ -13,7 +13,8 @@ from .shared import loc_of
 def wrun(F, body, args, inverse_total=True):
     dom = weight.WeightDomain(F)
     dom.inverse_total = inverse_total
-    ex = AbsExec(F, dom, max_paths=512)
+    from core.absexec import same_module_inline
+    ex = AbsExec(F, dom, max_paths=512, inline=same_module_inline(F, body.rec["path"]))
     rargs = []
     for a in args:
         if isinstance(a, tuple) and a and a[0] == "byref":
@@ -73,13 +74,18 @@ def rules_c04(prop, repo):
     # arms by representation
     arms = {}
     for v, pc in rs:
-        zs = tuple(c[2] for c in pc if c[0] == "z==1")
-        if len(zs) == 2:
+        # an arm = one combination of answers to the `z == one()` tests the adder makes (however it orders / nests them)
+        tests = {}
+        for c in pc:
+            if c[0] == "z==1":
+                tests[str(sorted(c[1].items()))] = c[2]
+        zs = tuple(tests[k] for k in sorted(tests))
+        if len(zs) >= 1 and not any(c[0] == "is_zero" and c[3] == "z" and c[4] for c in pc):
             arms.setdefault(zs, []).append((v, pc))
     formula_arms = {k: v for k, v in arms.items() if any(isinstance(x, Adt) and x.variant == "G" for x, _ in v)}
     R.note("arms with their own formulas (z1==1, z2==1): %s; delegating arms: %s" % (sorted(formula_arms), sorted(set(arms) - set(formula_arms))))
-    if len(arms) != 4:
-        R.fail_closed("%s:add:arms" % prop, "expected a dispatch on (z1 == 1, z2 == 1) with four arms, found %s" % sorted(arms), b.file_line())
+    if len(formula_arms) < 2:
+        R.fail_closed("%s:add:arms" % prop, "expected at least two formula arms selected by `z == one()` tests, found %s" % sorted(arms), b.file_line())
     for arm, lst in sorted(formula_arms.items()):
         R.instance()
         dbl = [(v, pc) for v, pc in lst if isinstance(v, Adt) and v.variant is None and not same_point(v, p1) and not same_point(v, p2) and any(pc == d[0] for d in dom.double_calls)]
@@ -100,16 +106,18 @@ def rules_c04(prop, repo):
                 continue
             if z.kind != "zero" and not any(fid in dom_vids_of_class(dom, rs, ("diff", "x")) for fid in z.factors):
                 zfac_ok = False
-        key = "%s:add:arm(z1==1:%s,z2==1:%s)" % (prop, arm[0], arm[1])
+        armname = ",".join("z%d==1:%s" % (i + 1, x) for i, x in enumerate(arm))
+        key = "%s:add:arm(%s)" % (prop, armname)
         R.check(bool(dbl_ok) and not fall and zfac_ok and gen, key,
-                "adder arm (z1==1: %s, z2==1: %s): double() under both differences zero=%s, chord formula reachable with both differences possibly zero=%s, z has the x-difference as a factor=%s" %
-                (arm[0], arm[1], bool(dbl_ok), bool(fall), zfac_ok), b.file_line(), b.rec["path"],
-                sample={"arm": "z1==1:%s z2==1:%s" % arm, "double_when_equal": bool(dbl_ok), "chord_paths": len(gen), "z_contains_x_difference": zfac_ok})
+                "adder arm (%s): double() under both differences zero=%s, chord formula reachable with both differences possibly zero=%s, z has the x-difference as a factor=%s" %
+                (armname, bool(dbl_ok), bool(fall), zfac_ok), b.file_line(), b.rec["path"],
+                sample={"arm": armname, "double_when_equal": bool(dbl_ok), "chord_paths": len(gen), "z_contains_x_difference": zfac_ok})
     for arm in sorted(set(arms) - set(formula_arms)):
         R.instance()
         lst = arms[arm]
         ok = all(isinstance(v, Adt) and v.name == G for v, _ in lst)
-        R.check(ok, "%s:add:arm(z1==1:%s,z2==1:%s)" % (prop, arm[0], arm[1]), "delegating arm does not return a point", b.file_line(), b.rec["path"], sample={"arm": "z1==1:%s z2==1:%s" % arm, "delegates": "other + self"})
+        armname = ",".join("z%d==1:%s" % (i + 1, x) for i, x in enumerate(arm))
+        R.check(ok, "%s:add:arm(%s)" % (prop, armname), "delegating arm does not return a point", b.file_line(), b.rec["path"], sample={"arm": armname, "delegates": "other + self"})
     out.append(R.finish())
 
     add_b = F.bodies.get("<crate::groups::G<P> as core::ops::Add>::add")
@@ -477,19 +485,19 @@ def rules_c09(prop, repo):
                                  sample={"site": fb.rec["path"]})
                     if rv["adt"] in wrap_allowed:
                         R2.instance()
-                        R2.check(fb.rec["path"] in wrap_allowed[rv["adt"]], "%s:affine-site:%s" % (prop, fb.rec["path"]), "%s wraps an affine point outside new / from_jacobian" % fb.rec["path"],
+                        R2.check(fb.rec["path"].split("::{closure")[0] in wrap_allowed[rv["adt"]], "%s:affine-site:%s" % (prop, fb.rec["path"]), "%s wraps an affine point outside new / from_jacobian" % fb.rec["path"],
                                  loc_of(fb, bi, si), fb.rec["path"], sample={"site": fb.rec["path"]})
                 for op in shared_ops(rv):
                     if op.get("k") == "const" and "fn" in op and (op["fn"].get("def") in wrap_allowed):
                         R2.instance()
-                        R2.check(fb.rec["path"] in wrap_allowed[op["fn"]["def"]], "%s:affine-site:%s" % (prop, fb.rec["path"]), "%s uses the %s constructor outside new / from_jacobian" % (fb.rec["path"], op["fn"]["def"]),
+                        R2.check(fb.rec["path"].split("::{closure")[0] in wrap_allowed[op["fn"]["def"]], "%s:affine-site:%s" % (prop, fb.rec["path"]), "%s uses the %s constructor outside new / from_jacobian" % (fb.rec["path"], op["fn"]["def"]),
                                  loc_of(fb, bi, si), fb.rec["path"], sample={"site": fb.rec["path"], "ctor_as_fn": True})
             t = fb.blocks[bi]["term"]
             if t["k"] == "call":
                 for op in t["args"]:
                     if op.get("k") == "const" and "fn" in op and (op["fn"].get("def") in wrap_allowed):
                         R2.instance()
-                        R2.check(fb.rec["path"] in wrap_allowed[op["fn"]["def"]], "%s:affine-site:%s" % (prop, fb.rec["path"]), "%s uses the %s constructor outside new / from_jacobian" % (fb.rec["path"], op["fn"]["def"]),
+                        R2.check(fb.rec["path"].split("::{closure")[0] in wrap_allowed[op["fn"]["def"]], "%s:affine-site:%s" % (prop, fb.rec["path"]), "%s uses the %s constructor outside new / from_jacobian" % (fb.rec["path"], op["fn"]["def"]),
                                  loc_of(fb, bi), fb.rec["path"], sample={"site": fb.rec["path"], "ctor_as_fn": True})
     muts = [p for p in F.bodies if p.startswith(("crate::AffineG1::set_", "crate::AffineG2::set_"))]
     R2.note("observation (outside the property's statement): public coordinate mutators exist on validated affine points: %s" % muts)
